@@ -47,8 +47,8 @@ ClientView(sent, pert) ==
    pass |-> IF pert = "pass" THEN "p2" ELSE "p",
    realm |-> IF pert = "realm" THEN "r2" ELSE "r",
    nonce |-> IF pert = "nonce" THEN "n2" ELSE "n",
-   method |-> IF pert = "method" THEN "OPTIONS" ELSE IF pert = "setup_base" THEN "SETUP" ELSE "DESCRIBE",
-   url |-> IF pert = "url" THEN "other" ELSE IF pert \in {"setup_base", "base_nonsetup"} THEN "base" ELSE "track",
+   method |-> IF pert = "method" THEN "OPTIONS" ELSE IF pert \in {"setup_base", "setup_other"} THEN "SETUP" ELSE "DESCRIBE",
+   url |-> IF pert \in {"url", "setup_other"} THEN "other" ELSE IF pert \in {"setup_base", "base_nonsetup"} THEN "base" ELSE "track",
    \* algorithm used to compute vs algorithm written in the header
    algUsed |-> a,
    algLabel |-> IF pert = "alg" THEN (IF a = "md5" THEN "sha256" ELSE "md5") ELSE a]
@@ -62,7 +62,7 @@ Header(sent, pert) ==
         response |-> <<v.algUsed, v.user, v.realm, v.pass, v.nonce, v.method, v.url>>]
 
 \* the request as the server sees it: method and URL are the real ones
-ReqMethod(pert) == IF pert = "setup_base" THEN "SETUP" ELSE "DESCRIBE"
+ReqMethod(pert) == IF pert \in {"setup_base", "setup_other"} THEN "SETUP" ELSE "DESCRIBE"
 
 UrlMatches(received, isSetup) == received = "track" \/ (isSetup /\ received = "base")
 
